@@ -3496,6 +3496,10 @@ var StringValueParsers = func() map[string]TypedStringValueParser {
 		{
 			ReceiverType: sema.UIntType,
 			Parser: bigIntValueParser(func(b *big.Int) (Value, bool) {
+				// UInt is unbounded above, but cannot hold negative values.
+				if b.Sign() < 0 {
+					return nil, false
+				}
 				return NewUnmeteredUIntValueFromBigInt(b), true
 			}),
 		},
